@@ -23,7 +23,8 @@ func c03EngineTies(r *Report, known []Finding, root *RNG) {
 		np = 900
 	}
 	fixed := []string{`(a)(b)?`, `(a|ab)(c|bcd)(d*)`, `(a+)(b+)?`, `((a)|(b))*`, `(a*)*`, `(a*)+`, `(?:(a)|b)*`, `()`, `(a*)`, `((?:x)?)`, `(a+?)`, `(a|ab)*`, `(\b)`, `(a)\b(b)`, `(\w+)\B`,
-		`a*(b)`, `(.+)b`, `^(\d+)-(\d+)$`, `(?m)^(\w+)=(\w*)$`, `(x*)(y?)`, `(a??)(a*)`, `(é+)(.)`, `(?:(a)|(b)|(c))+`, `(a{2,3}?)(a*)`, `([a-c]+)([b-d]+)`}
+		`a*(b)`, `(.+)b`, `^(\d+)-(\d+)$`, `(?m)^(\w+)=(\w*)$`, `(x*)(y?)`, `(a??)(a*)`, `(é+)(.)`, `(?:(a)|(b)|(c))+`, `(a{2,3}?)(a*)`, `([a-c]+)([b-d]+)`,
+		`(a)?x?b`, `(a)?(b)?c`, `(\d+)?[a-z]?;`, `^(?:-(\d+)|(\w*))`, `^(?:x|(y*))`, `^(?:foo|(\d*))`, `^(?:#(\w+)|(\d*)) ?`, `^(a)?(?:b|(c*))`, `(?:(a)|b)(?:(c)|d)?`}
 	type cs struct {
 		p, kind, req, got, desc string
 		h                       []byte
@@ -59,6 +60,12 @@ func c03EngineTies(r *Report, known []Finding, root *RNG) {
 		vm := nfa.NewPikeVM(n)
 		var hays [][]byte
 		hays = append(hays, nil)
+		if i < len(fixed) {
+			// inputs on which one alternative / one attempt sets a group and the winning one does not
+			for _, w := range []string{"ax_b", "ab c", "12q ;", "-12", "x", "foo", "#tag ", "ac", "bd", "a_b", "xb b"} {
+				hays = append(hays, []byte(w))
+			}
+		}
 		for k := 0; k < 6; k++ {
 			h := GenHaystack(rng, ast, false)
 			if len(h) > 24 {
